@@ -36,6 +36,13 @@ package main
 //   global      a package-level variable
 //   other       anything else (literal, composite, nil, unresolved identifier …), printed
 //
+// and the LOOP POSITION of the site inside its function: `loop` = number of enclosing `for` /
+// `for … range` statements (the range expression and a three-clause loop's init statement belong to
+// the outside; function literals inherit the depth of the place they are written at), `over` = what
+// the innermost enclosing loop ranges over (callee of a call such as `·.otherParticipantsOrdered`,
+// else the printed expression; "for" for a three-clause loop).  A per-peer draw that is hoisted out of
+// its loop shows as loop = 0 (rule `per_peer_sites_in_loop` in Props/C07.lean).
+//
 // Locals are traced through their assignments in the enclosing function (`r := E`, `r, err := f()`,
 // `var r = E`); a local with several different roots is `other "mixed:…"`.
 //
@@ -86,8 +93,10 @@ type psIndex struct {
 
 type psSite struct {
 	kind, pkg, fn, callee, root, name string
-	src                               int // field number of the root when root = field, else 0
-	tgt                               int // init records: number of the field being initialised, else 0
+	src                               int    // field number of the root when root = field, else 0
+	tgt                               int    // init records: number of the field being initialised, else 0
+	loop                              int    // nesting depth of the enclosing for / for-range statements of the function (0: straight-line)
+	over                              string // what the innermost enclosing loop ranges over ("for": a three-clause loop; "": no loop)
 	pos                               string
 }
 
@@ -362,6 +371,7 @@ func genPrngSites(repo string) (string, error) {
 					}
 					w.bindParams(sc, dd.Type)
 					w.collectAssigns(sc, dd.Body)
+					w.markLoops(dd.Body, psLoop{})
 					w.walk(dd.Body, sc)
 				case *ast.GenDecl:
 					// package-level initialisers: `var x = f(crand.Reader)` etc.
@@ -431,6 +441,75 @@ type psWalker struct {
 	sites *[]psSite
 	repo  string
 	busy  map[*psVar]bool
+	loops map[ast.Node]psLoop
+}
+
+type psLoop struct {
+	depth int
+	over  string
+}
+
+// markLoops records for every node below n the loop position it is written at.
+func (w *psWalker) markLoops(n ast.Node, cur psLoop) {
+	if n == nil {
+		return
+	}
+	if w.loops == nil {
+		w.loops = map[ast.Node]psLoop{}
+	}
+	ast.Inspect(n, func(m ast.Node) bool {
+		switch x := m.(type) {
+		case nil:
+			return false
+		case *ast.RangeStmt:
+			w.loops[x] = cur
+			if x.Key != nil {
+				w.markLoops(x.Key, cur)
+			}
+			if x.Value != nil {
+				w.markLoops(x.Value, cur)
+			}
+			w.markLoops(x.X, cur)
+			w.markLoops(x.Body, psLoop{cur.depth + 1, w.rangeOver(x.X)})
+			return false
+		case *ast.ForStmt:
+			w.loops[x] = cur
+			if x.Init != nil {
+				w.markLoops(x.Init, cur)
+			}
+			inner := psLoop{cur.depth + 1, "for"}
+			if x.Cond != nil {
+				w.markLoops(x.Cond, inner)
+			}
+			if x.Post != nil {
+				w.markLoops(x.Post, inner)
+			}
+			w.markLoops(x.Body, inner)
+			return false
+		}
+		w.loops[m] = cur
+		return true
+	})
+}
+
+// rangeOver names what a range statement iterates over.
+func (w *psWalker) rangeOver(e ast.Expr) string {
+	for {
+		if p, ok := e.(*ast.ParenExpr); ok {
+			e = p.X
+			continue
+		}
+		break
+	}
+	if c, ok := e.(*ast.CallExpr); ok {
+		name, _, _ := w.calleeName(c.Fun, &psScopeT{vars: map[string]*psVar{}})
+		return name
+	}
+	s := w.str(e)
+	if len(s) > 60 {
+		s = s[:60] + "…"
+	}
+	return s
 }
 
 func (w *psWalker) bindParams(sc *psScopeT, ft *ast.FuncType) {
@@ -718,7 +797,9 @@ func (w *psWalker) emit(kind string, at ast.Node, callee string, r psRoot) {
 func (w *psWalker) emitT(kind string, at ast.Node, callee string, r psRoot, tgt int) {
 	p := w.fset.Position(at.Pos())
 	rel, _ := filepath.Rel(w.repo, p.Filename)
+	lp := w.loops[at]
 	*w.sites = append(*w.sites, psSite{kind: kind, pkg: w.pk.dir, fn: w.fn, callee: callee, root: r.kind, name: r.name, src: r.fid, tgt: tgt,
+		loop: lp.depth, over: lp.over,
 		pos: fmt.Sprintf("%s:%d", filepath.ToSlash(rel), p.Line)})
 }
 
@@ -909,6 +990,10 @@ structure Site where
   name : Str
   src : Nat
   tgt : Nat
+  /-- number of enclosing for / for-range statements of the enclosing function -/
+  loop : Nat := 0
+  /-- what the innermost enclosing loop ranges over (for: three-clause loop; empty: no loop) -/
+  over : Str := []
   deriving DecidableEq, Repr
 
 `)
@@ -925,8 +1010,8 @@ structure Site where
 	writeList := func(name, doc string, xs []psSite) {
 		fmt.Fprintf(&b, "/-- %s -/\ndef %s : List Site := [\n", doc, name)
 		for k, s := range xs {
-			fmt.Fprintf(&b, "  -- %s\n  { kind := .%s, pkg := %s, fn := %s, callee := %s, root := .%s, name := %s, src := %d, tgt := %d }", s.pos, s.kind,
-				psCps(s.pkg), psCps(s.fn), psCps(s.callee), s.root, psCps(s.name), s.src, s.tgt)
+			fmt.Fprintf(&b, "  -- %s\n  { kind := .%s, pkg := %s, fn := %s, callee := %s, root := .%s, name := %s, src := %d, tgt := %d, loop := %d, over := %s }", s.pos, s.kind,
+				psCps(s.pkg), psCps(s.fn), psCps(s.callee), s.root, psCps(s.name), s.src, s.tgt, s.loop, psCps(s.over))
 			if k+1 < len(xs) {
 				b.WriteString(",")
 			}
